@@ -46,6 +46,44 @@ def strip_shell_comments(text: str) -> str:
     return "".join(result)
 
 
+def strip_comments(text: str) -> str:
+    """Strip every kind of comment ('#' and '//' to the end of the line, '/* ... */'),
+    preserving strings and line breaks.
+
+    The macro pre-processor works on the raw text; a comment must not be able to define
+    a macro, hide the value of 'now' or swallow what follows a macro call.
+    """
+    result = []
+    i = 0
+    n = len(text)
+
+    while i < n:
+        ch = text[i]
+        if ch in "\"'":
+            quote = ch
+            result.append(ch)
+            i += 1
+            while i < n and text[i] != quote:
+                result.append(text[i])
+                i += 1
+            if i < n:
+                result.append(text[i])
+                i += 1
+        elif ch == "#" or text.startswith("//", i):
+            while i < n and text[i] != "\n":
+                i += 1
+        elif text.startswith("/*", i):
+            end = text.find("*/", i + 2)
+            end = n if end < 0 else end + 2
+            result.append("\n" * text.count("\n", i, end) or " ")
+            i = end
+        else:
+            result.append(ch)
+            i += 1
+
+    return "".join(result)
+
+
 class MacroProcessor:
     """Preprocesses TJP content to expand macros.
 
@@ -75,6 +113,10 @@ class MacroProcessor:
         Returns:
             The processed content with macros expanded
         """
+        # Comments carry no meaning: remove them before looking for macro definitions,
+        # built-in values and macro calls
+        content = strip_comments(content)
+
         # First pass: extract macro definitions
         content = self._extract_macros(content)
 
